@@ -959,11 +959,11 @@ matmul_dag.add_specialisations([
 
 
 cpdef CSR matmul_outer_csr_dense_sparse(Data left, Data right, double complex scale=1):
-    return matmul(left, right, dtype=CSR)
+    return matmul(left, right, scale, dtype=CSR)
 
 
 cpdef Dia matmul_outer_dia_dense_sparse(Data left, Data right, double complex scale=1):
-    return matmul(left, right, dtype=Dia)
+    return matmul(left, right, scale, dtype=Dia)
 
 
 cpdef Data matmul_outer_dense_Data(Dense left, Dense right, double complex scale=1):
@@ -977,11 +977,11 @@ cpdef Data matmul_outer_dense_Data(Dense left, Dense right, double complex scale
             out_type = CSR
         else:
             out_type = Dense
-    return matmul(left, right, dtype=out_type)
+    return matmul(left, right, scale, dtype=out_type)
 
 
 cpdef Data matmul_outer_Data(Data left, Data right, double complex scale=1):
-    return matmul(left, right)
+    return matmul(left, right, scale)
 
 
 matmul_outer = _Dispatcher(
